@@ -395,6 +395,14 @@ class DeciderIntFacet(Facet):
                 bounds(),
                 # huge widths whose half is a power of ten, or just below / above one
                 st.builds(lambda lo, k, j: (lo, lo + 2 * 10**k - j), st.sampled_from([0, 0, 1, -5, -(10**15)]), st.integers(12, 18), st.integers(-3, 5)).filter(lambda b: b[1] <= MAXI),
+                # intervals a little wider than 1000 that hug the platform integer limits or sit far from
+                # zero (a midpoint or width computed through a float is off by hundreds there)
+                st.builds(
+                    lambda anchor, w, up: (anchor, anchor + w) if up else (anchor - w, anchor),
+                    st.sampled_from([MAXI, -MAXI, 2**62 + 1, -(2**62) - 1, 2**60 + 7, 2**53 + 1, -(2**53) - 1]),
+                    st.integers(1001, 6000),
+                    st.booleans(),
+                ).filter(lambda b: -MAXI <= b[0] and b[1] <= MAXI),
             ),
             st.sampled_from(["base-scripted", "base-scripted", "base-native", "dsge"]),
             st.integers(0, 2**32),
